@@ -36,6 +36,11 @@ def run(ctx, replay):
         return
     thorough = ctx.tier == "thorough"
     # M: the implementation model of get-or-create (lock sections, bucket cache, flush) refines the dictionary
+    # the schema store (field / tag key ids of one metric) at the level of its lock sections: all three protective
+    # steps on -> Stable / Injective / Function hold; each one off (the pinned code) -> counterexample
+    ctx.model_check("SchemaStore", "MCSchemaStore.cfg", timeout=900)
+    for dev in ("MCSchemaStore_dev_private.cfg", "MCSchemaStore_dev_markall.cfg", "MCSchemaStore_dev_stale.cfg"):
+        ctx.model_check("SchemaStore", dev, expect="violation", timeout=300)
     ctx.model_check("IDDict", "MCIDDict_thorough.cfg" if thorough else "MCIDDict.cfg", timeout=1800)
     for dev in ("mem", "disk", "cache"):
         ctx.model_check("IDDict", "MCIDDict_dev_%s.cfg" % dev, expect="violation", timeout=600)
